@@ -1452,17 +1452,18 @@ class AdapterIndex:
         the best match or None if no match was found
         """
         affix = self._make_affix(sequence.upper(), self._length)
+        length = self._length
         if "N" in affix:
             result = self._lookup_with_n(affix)
             if result is None:
                 return None
-            adapter, e, m = result
+            adapter, e, m, length = result
         else:
             try:
                 adapter, e, m = self._index[affix]
             except KeyError:
                 return None
-        return self._make_match(adapter, self._length, m, e, sequence)
+        return self._make_match(adapter, length, m, e, sequence)
 
     def _match_to_multiple_lengths(self, sequence: str):
         """
@@ -1490,7 +1491,7 @@ class AdapterIndex:
                 result = self._lookup_with_n(affix)
                 if result is None:
                     continue
-                adapter, e, m = result
+                adapter, e, m, length = result
             else:
                 try:
                     adapter, e, m = self._index[affix]
@@ -1526,7 +1527,8 @@ class AdapterIndex:
         match = adapter.match_to(affix)
         if match is None:
             return None
-        return adapter, match.errors, match.score
+        # The re-done alignment may cover less than the whole affix
+        return adapter, match.errors, match.score, match.rstop - match.rstart
 
 
 class IndexedPrefixAdapters(Matchable):
